@@ -225,6 +225,9 @@ def diff_orient(ctx):
                 prod = prod * s_ if s_ is not None else None
                 if prod is None:
                     break
+            # a factor whose sign is not read is not a finding
+            ctx.need(prod is not None, "compute_state_difference: the sign of the factor of "
+                     "column '%s' is not read" % col)
             ctx.ob('DIFF-ORIENT', prod == sg and len(got) >= 1, None,
                    "column '%s' scaled with sign %+d" % (col, sg), f=f,
                    node=(got[0][1] if got else f.node), key='col-' + col,
@@ -261,6 +264,9 @@ def _factor_sign(node):
         return None if a is None or b is None else a * b
     if isinstance(node, (ast.Name, ast.Attribute)):
         return 1        # rn, rp, DEG_TO_RAD: positive quantities (ROLE-RADII checks which)
+    if isinstance(node, ast.Call) and isinstance(node.func, ast.Attribute) and \
+            node.func.attr in ('deg2rad', 'rad2deg', 'radians', 'degrees') and len(node.args) == 1:
+        return _factor_sign(node.args[0])     # positive scalings (DIFF-SCALE decides the value)
     return None
 
 
@@ -336,6 +342,115 @@ def diff_sym(ctx):
                    '`%s`, which changes when the operands are exchanged: d(a, b) + d(b, a) is of '
                    'the order (separation / Earth radius) * separation instead of zero'
                    % ', '.join(norm_text(x) for x in call.args))
+
+
+# ------------------------------------------------------------------ DIFF-SCALE
+def diff_scale(ctx):
+    """`position differences in NED metres`: the factor each position column of the difference is
+    multiplied with, evaluated in N1 over the outputs of principal_radii and the module
+    constants, is rn * DEG_TO_RAD (lat -> north), rp * DEG_TO_RAD (lon -> east), -1 (alt -> down):
+    the first-order inverse of perturb_lla (GEO-PERTURB), the same factors as the array sibling
+    compute_lla_difference (GEO-DIFF).  DIFF-ORIENT reads only the sign of these factors and
+    ROLE-RADII only which radius meets which column (survey: `rn / DEG_TO_RAD`, `rn * RAD_TO_DEG`
+    and a dropped DEG_TO_RAD passed both)."""
+    ctx.rule('DIFF-SCALE', 'the factors that turn the lat/lon/alt columns of the difference into '
+             'north/east/down are rn*DEG_TO_RAD, rp*DEG_TO_RAD, -1 (N1 equality over the outputs '
+             'of principal_radii)')
+    from ..nf import Alg
+    f = ctx.repo.function('transform.compute_state_difference')
+    res = lambda n: f.module.resolve(n, f.local_names())
+    A = Alg()
+    radii = {}
+    for st in ast.walk(f.node):
+        if isinstance(st, ast.Assign) and isinstance(st.value, ast.Call) and \
+                res(st.value.func) == 'pyins.earth.principal_radii' and \
+                isinstance(st.targets[0], ast.Tuple) and len(st.targets[0].elts) == 3:
+            for k, e in enumerate(st.targets[0].elts):
+                if isinstance(e, ast.Name) and e.id != '_':
+                    radii[e.id] = k
+    ctx.need(radii, 'compute_state_difference: no unpacked principal_radii call')
+    assigned = {}
+    for st in ast.walk(f.node):
+        if isinstance(st, ast.Assign):
+            for t in st.targets:
+                for x in (t.elts if isinstance(t, ast.Tuple) else [t]):
+                    if isinstance(x, ast.Name):
+                        assigned.setdefault(x.id, []).append(st)
+
+    def ev(e):
+        if isinstance(e, ast.Constant) and isinstance(e.value, (int, float)) and \
+                not isinstance(e.value, bool):
+            return A.const(e.value)
+        if isinstance(e, ast.UnaryOp) and isinstance(e.op, ast.USub):
+            return A.neg(ev(e.operand))
+        if isinstance(e, ast.UnaryOp) and isinstance(e.op, ast.UAdd):
+            return ev(e.operand)
+        if isinstance(e, ast.BinOp) and isinstance(e.op, (ast.Add, ast.Sub, ast.Mult, ast.Div)):
+            x, y = ev(e.left), ev(e.right)
+            return {ast.Add: A.add, ast.Sub: A.sub, ast.Mult: A.mul, ast.Div: A.div}[type(e.op)](x, y)
+        if isinstance(e, ast.Name) and e.id in radii and len(assigned.get(e.id, [])) == 1:
+            return A.sym('@R%d' % radii[e.id])
+        if isinstance(e, (ast.Name, ast.Attribute)):
+            q = res(e)
+            if q == 'pyins.transform.DEG_TO_RAD':
+                return A.sym(A.D2R)
+            if q == 'pyins.transform.RAD_TO_DEG':
+                return A.sym(A.R2D)
+            if q == 'numpy.pi':
+                return A.mul(A.const(180), A.sym(A.D2R))
+            if q is not None:
+                try:
+                    v = ctx.repo.fold_fq(q)
+                except ValueError:
+                    v = None
+                if isinstance(v, (int, float)) and not isinstance(v, bool):
+                    return A.const(v)
+            if isinstance(e, ast.Name) and len(assigned.get(e.id, [])) == 1 and \
+                    isinstance(assigned[e.id][0].targets[0], ast.Name):
+                return ev(assigned[e.id][0].value)
+        if isinstance(e, ast.Call) and e.args and len(e.args) == 1 and not e.keywords:
+            q = res(e.func)
+            if q == 'numpy.deg2rad':
+                return A.mul(ev(e.args[0]), A.sym(A.D2R))
+            if q == 'numpy.rad2deg':
+                return A.mul(ev(e.args[0]), A.sym(A.R2D))
+        raise ValueError(norm_text(e))
+
+    def column_of(t):
+        if isinstance(t, ast.Attribute) and isinstance(t.value, ast.Name):
+            return t.value.id, t.attr
+        if isinstance(t, ast.Subscript) and isinstance(t.value, ast.Name) and \
+                isinstance(t.slice, ast.Constant) and isinstance(t.slice.value, str):
+            return t.value.id, t.slice.value
+        return None
+    factors = {}
+    for st in walk_no_nested_funcs(f.node):
+        if isinstance(st, ast.AugAssign) and isinstance(st.op, (ast.Mult, ast.Div)):
+            c = column_of(st.target)
+            if c and c[1] in ('lat', 'lon', 'alt'):
+                factors.setdefault(c[1], []).append((st, isinstance(st.op, ast.Div)))
+    ctx.floor('DIFF-SCALE', len(factors), 3, 'scaled position columns')
+    want = {'lat': (A.mul(A.sym('@R0'), A.sym(A.D2R)), 'rn * DEG_TO_RAD (output 0 of principal_radii)'),
+            'lon': (A.mul(A.sym('@R2'), A.sym(A.D2R)), 'rp * DEG_TO_RAD (output 2 of principal_radii)'),
+            'alt': (A.const(-1), '-1')}
+    for col in ('lat', 'lon', 'alt'):
+        total = A.const(1)
+        try:
+            for st, inv in factors[col]:
+                v = ev(st.value)
+                total = A.div(total, v) if inv else A.mul(total, v)
+        except ValueError as e:
+            raise AnalysisError('compute_state_difference: factor `%s` of column %s not '
+                                'understood' % (e, col))
+        ok = A.eq(total, want[col][0])
+        st0 = factors[col][0][0]
+        ctx.ob('DIFF-SCALE', ok, None, "column '%s' is multiplied by %s" % (col, want[col][1]),
+               f=f, node=st0, key='scale-' + col,
+               why="the position column '%s' of the difference is scaled by `%s`, which is not "
+                   "%s: the result is not the displacement in metres along %s (a perturbation "
+                   "applied with perturb_lla is not recovered)" % (
+                       col, ' ; '.join(norm_text(s_.value) for s_, _ in factors[col])[:120],
+                       want[col][1], {'lat': 'north', 'lon': 'east', 'alt': 'down'}[col]))
 
 
 # ------------------------------------------------------------------ WRAP-RANGE
